@@ -103,7 +103,7 @@ func c02Case(t listTemplate, decs []chunk, blank bool, hist []editOp) (sig, what
 	libNames := simple.New(map[string]string{"example.com/lib": "lib"})
 	if t.Qualified {
 		f, err = decorator.NewDecoratorWithImports(token.NewFileSet(), "example.com/p", goast.WithResolver(libNames)).Parse(src)
-	} else if viaAst = len(src)%5 == 1 && !blank && noHanging(decs); viaAst {
+	} else if viaAst = len(src)%5 == 1 && !blank && !blockLeads && noHanging(decs); viaAst {
 		// every fifth source goes through the library twice before it is edited: decorated, restored to
 		// an *ast.File, and that file decorated again (lists separated by line breaks only, no comments
 		// hanging at the end of a body: empty lines and comment columns do not survive the restorer's
